@@ -21,12 +21,14 @@ for d in sorted(glob.glob(os.path.join(V, 'benign', 'C*-ben*'))):
     meta = json.load(open(mp))
     r = res.get(sid)
     if r:
-        meta['checks_run'] = {c: x for c, x in sorted(r.items()) if not c.startswith('_')}
-        meta['non_zero_exits'] = {c: x['exit'] for c, x in r.items() if not c.startswith('_') and x['exit'] != 0}
+        merged = dict(meta.get('checks_run', {}))      # a later partial re-run (some checks only) updates those entries and keeps the others
+        merged.update({c: x for c, x in r.items() if not c.startswith('_')})
+        meta['checks_run'] = dict(sorted(merged.items()))
+        meta['non_zero_exits'] = {c: x['exit'] for c, x in merged.items() if x['exit'] != 0}
         meta.pop('error', None)
         if '_error' in r and not meta['checks_run']:
             meta['error'] = r['_error']
-        meta['what_was_run'] = 'tools/par_matrix.py on benign/<id>/patch.diff (patched scratch worktree of /repo HEAD + a copy of /verif pointing at it; quick tier, all 19 checks)'
+        meta['what_was_run'] = 'tools/par_matrix.py on benign/<id>/patch.diff (patched scratch worktree of /repo HEAD + a copy of /verif pointing at it; quick tier; all checks at the time of the wave, later re-runs of the property's own check and C18)'
         json.dump(meta, open(mp, 'w'), indent=1)
     cr = meta.get('checks_run', {})
     rows.append((sid, ', '.join(meta.get('files', [])), len(cr), meta.get('non_zero_exits', {}), sum(x.get('engine_m_groups_not_decided', 0) for x in cr.values()), meta.get('error', '')))
